@@ -17,12 +17,12 @@ git checkout -q -- . ; rm -f lib/src/seed_demo.rs
 echo "== confirm in scratch worktree $WT"
 git apply seed/demo.diff || { echo "CONFIRM-FAIL demo.diff does not apply"; exit 3; }
 echo "-- demo without the change"
-cargo test --offline -p opcua --lib seed_demo 2>&1 | grep -E "^test |test result|error" | head -20
+cargo test --offline -p opcua --lib seed_demo 2>&1 | grep -E "^test seed_demo|^test result" | head -20
 git apply seed/patch.diff || { echo "CONFIRM-FAIL patch.diff does not apply"; exit 3; }
 echo "-- demo with the change"
-cargo test --offline -p opcua --lib seed_demo 2>&1 | grep -E "^test |test result|error" | head -20
+cargo test --offline -p opcua --lib seed_demo 2>&1 | grep -E "^test seed_demo|^test result" | head -20
 echo "-- existing lib tests with the change (demo excluded)"
-cargo test --offline -p opcua --lib -- --skip seed_demo 2>&1 | grep -E "FAILED|failed|test result" | head -20
+cargo test --offline -p opcua --lib -- --skip seed_demo 2>&1 | grep -E "\.\.\. FAILED|^test result" | head -20
 } > $OUT/confirm.log 2>&1
 git checkout -q -- . ; rm -f lib/src/seed_demo.rs
 fi
